@@ -19,8 +19,8 @@
 //!   W   V:<ns>                          the next write fails / takes <ns>
 //!   T:<ns>                              advance virtual time
 //! output line: <task log>|<completion log>|<live|done>
-//!   task log: lD lC lN lF<ns> lW<ns> lS (listener)  d (connect attempt)  w<tx>:<id>@<ns> (request written)
-//!             x<tx>:<id> (write failed)  e<reason> (ClientLoop::run returned)
+//!   task log: lD lC lN@<ns> lF<ns> lW<ns> lS (listener)  d (connect attempt)  w<tx>:<id>@<ns> (request written)
+//!             x<tx>:<id> (write failed)  e<reason>@<ns> (ClientLoop::run returned)
 //!   completion log: c<id>:<class>@<ns>
 #![allow(deprecated)]
 use std::collections::HashMap;
@@ -173,7 +173,11 @@ async fn channel_task(
                 sess.fail_requests_for(delay).await
             }
             Ok(true) => {
-                tlog(&ctl, "lN".into());
+                {
+                    let mut c = ctl.lock().unwrap();
+                    let t = now_ns(&c);
+                    c.task_log.push(format!("lN@{t}"));
+                }
                 retry.reset();
                 let wire = Wire::new();
                 ctl.lock().unwrap().wire = Some(wire.clone());
@@ -190,7 +194,11 @@ async fn channel_task(
                     x => x,
                 }
                 .to_string();
-                tlog(&ctl, format!("e{short}"));
+                {
+                    let mut c = ctl.lock().unwrap();
+                    let t = now_ns(&c);
+                    c.task_log.push(format!("e{short}@{t}"));
+                }
                 match short.as_str() {
                     "Shutdown" => "Shutdown",
                     "Disabled" => "Elapsed",
